@@ -152,6 +152,12 @@ pub fn conf_text(c: &Conf) -> Option<Vec<u8>> {
             if unknown & 2 == 2 {
                 codes.push("\"Undeclared-Fixture\"".into());
             }
+            // a disabled code may be listed more than once (bits 1..=3 of `wrong_types`): a list, not a set
+            for (i, c) in CODES.iter().enumerate() {
+                if (disabled >> i) & 1 == 1 && (wrong_types >> (1 + i)) & 1 == 1 {
+                    codes.push(format!("\"{}\"", c));
+                }
+            }
             s.push_str(&format!("disabled_diagnostics = [{}]\n", codes.join(", ")));
             let ex: Vec<String> = excludes
                 .iter()
@@ -200,7 +206,7 @@ fn docv(level: u8) -> impl Strategy<Value = DocV> {
 fn conf() -> impl Strategy<Value = Conf> {
     prop_oneof![
         1 => Just(Conf::Absent),
-        6 => (0u8..8, 0u8..4, vec(0u8..4, 0..=3), any::<bool>(), 0u8..2).prop_map(|(disabled, unknown, excludes, extra_tables, wrong_types)| Conf::Valid { disabled, unknown, excludes, extra_tables, wrong_types }),
+        6 => (0u8..8, 0u8..4, vec(0u8..4, 0..=3), any::<bool>(), 0u8..16).prop_map(|(disabled, unknown, excludes, extra_tables, wrong_types)| Conf::Valid { disabled, unknown, excludes, extra_tables, wrong_types }),
         2 => (0u8..4, any::<u8>()).prop_map(|(k, b)| Conf::Malformed(k, b)),
     ]
 }
